@@ -253,7 +253,9 @@ def _work(tier):
     # without a time limit the step budget alone must stop a quadratic scan, through every API
     for pat, ch, tail in FAMILIES[-4:]:
         for api in APIS:
-            for n in (300, 2000) + ((8000,) if tier == "thorough" else ()):
+            # (8000 only for the anchored patterns: an unanchored quadratic scan of 8000 positions is within the engine's own
+            # budget but takes minutes of wall time, which the harness's watchdog would report as a resource kill)
+            for n in (300, 2000) + ((8000,) if tier == "thorough" and pat.startswith("^") else ()):
                 s = ch * n + tail
                 # anchored at ^: only the first start position can do real work (one step budget, a few API-internal matcher
                 # runs), every other position fails within a few steps
